@@ -654,8 +654,12 @@ pub fn run(ctx: &Ctx) -> i32 {
     }
     let enumerated = total.histories;
 
-    // (a2) random long histories
-    let rand_budget = ctx.budget_s * 0.55;
+    // (a2) random long histories: a fixed share of the budget *after* the enumerations (which always
+    // run to completion), so that the thorough tier does not starve the phases below
+    let t_enum = ctx.elapsed();
+    let phase = ctx.tier.pick(ctx.budget_s * 0.55, ctx.budget_s * 0.3);
+    let rand_budget = ctx.tier.pick(phase, t_enum + phase);
+    let compile_deadline = ctx.tier.pick(ctx.budget_s, t_enum + 2.0 * phase);
     let results = par(WORKERS, |w| {
         vh::set_tracing(true);
         let mut agg = Agg::default();
@@ -684,7 +688,7 @@ pub fn run(ctx: &Ctx) -> i32 {
         let mut rng = Rng::derive(ctx.seed, 0x5000 + w as u64);
         loop {
             let i = next.fetch_add(1, std::sync::atomic::Ordering::SeqCst);
-            if i >= programs.len() || ctx.out_of_time() {
+            if i >= programs.len() || ctx.elapsed() > compile_deadline || ctx.stop.load(std::sync::atomic::Ordering::Relaxed) {
                 break;
             }
             let (origin, src) = &programs[i];
